@@ -85,11 +85,30 @@ def run(ctx):
         if rc != 0:
             ctx.broken_tie("harness crashed", out[-2000:])
             return
+    # regression for the nil dereference in readChunk (C13, fixed by 069bea7): in a process of its own
+    survived = 0
+    for attempt in range(3):
+        rc, out = vf.sh([h, "-seed", str(ctx.seed), "c19race", "opn-after-open-gave-up"], timeout=120, env=vf.GOENV)
+        lines = [json.loads(l) for l in out.splitlines() if l.startswith("{")]
+        if rc != 0:
+            panic = [l for l in out.splitlines() if l.startswith("panic:") or "nil pointer" in l or l.startswith("fatal error")]
+            if ctx.finding("client-process-died", "the client process died while an OpenSecureChannelResponse that arrived after open() had given up went through readChunk: %s" % (panic[:2] or out[-300:]),
+                           {"how": "schedharness c19race opn-after-open-gave-up (Basic256Sha256/Sign, response held at sc.recv.openingChecked until Renew timed out)", "output": out[-3000:]}):
+                pre_new = 1
+            else:
+                pre_new = 0
+            break
+        if any(l.get("kind") == "survived" for l in lines):
+            survived, pre_new = 1, 0
+            break
+        pre_new = 0   # the ordering could not be set up (slow machine): try again
+    else:
+        errors.append({"scenario": "c19race-opn-after-open-gave-up", "err": "ordering could not be set up: " + out[-300:]})
     if not cases:
         ctx.broken_tie("harness produced no cases", "")
         return
 
-    new, seen = 0, set()
+    new, seen = pre_new, set()
     for c in cases:
         for key, why in oracle(c):
             if key in seen:
@@ -136,6 +155,7 @@ def run(ctx):
         "timeouts_observed": len(to), "timeout_overshoot_ms_max": round(max(to), 2) if to else None,
         "timeout_overshoot_ms_min": round(min(to), 2) if to else None,
         "max_scheduling_stall_ms": max([c.get("stall_ms", 0.0) for c in cases] or [0.0]),
+        "late_opn_response_regression_survived": survived,
         "forced_schedules": len([c for c in cases if c["scenario"].startswith("c19race-")]),
         "traces_validated_against_impl": len(cases), "model_impl_mismatches": len(mism),
     })
